@@ -100,6 +100,25 @@ def entry_conds(p):
     return [c for c, f in zip(p.conds, p.entry) if f]
 
 
+def open_splats(e):
+    """f(**{'a': x, 'b': y}) -> f(a=x, b=y) (after a tracked keyword dictionary was substituted for its name)."""
+    class S(ast.NodeTransformer):
+        def visit_Call(self, n):
+            self.generic_visit(n)
+            kws = []
+            for k in n.keywords:
+                if k.arg is None and isinstance(k.value, ast.Dict) and all(isinstance(x, ast.Constant) and isinstance(x.value, str) for x in k.value.keys):
+                    kws += [ast.keyword(arg=x.value, value=v) for x, v in zip(k.value.keys, k.value.values)]
+                else:
+                    kws.append(k)
+            n.keywords = kws
+            return n
+    try:
+        return S().visit(e)
+    except Exception:
+        return e
+
+
 def _ev(p, e):
     p.events.append(e)
     p.seq.append(("ev", e))
@@ -136,6 +155,7 @@ def _mentions(text, key):
 
 FINE = [False]
 ENTRY = [False]
+NOMERGE = [False]
 
 
 def affine(e):
@@ -256,7 +276,7 @@ class Walker:
 
     def src(self, e, p):
         if not self.entry:
-            return norm_src(subst(e, p.env))
+            return norm_src(open_splats(subst(e, p.env)))
         # entry mode: every expression is rendered in terms of the state the method was entered with - reads of scalar
         # attributes written earlier on the path are replaced by the value written, integer arithmetic is folded
         # (attribute reads of the expression itself first; alias texts are already in entry terms and are inserted verbatim)
@@ -381,8 +401,26 @@ class Walker:
                         invalidate(p, t.id)
                         if self.aliasable(s.value) and not selfref:
                             p.env[t.id] = vsrc
+                        elif isinstance(s.value, ast.Dict) and s.value.keys and not selfref and \
+                                all(isinstance(k, ast.Constant) and isinstance(k.value, str) for k in s.value.keys) and \
+                                all(self.aliasable(v) for v in s.value.values):
+                            p.env[t.id] = vsrc      # a keyword dictionary under construction: tracked as a display
                         else:
                             p.env.pop(t.id, None)
+                    elif isinstance(t, ast.Subscript) and isinstance(t.value, ast.Name) and p.env.get(t.value.id, "").startswith("{") and \
+                            isinstance(t.slice, ast.Constant) and isinstance(t.slice.value, str) and self.aliasable(s.value):
+                        # d["key"] = v on a tracked keyword dictionary
+                        try:
+                            dd = ast.parse(p.env[t.value.id], mode="eval").body
+                            keys = [k.value for k in dd.keys]
+                            if t.slice.value in keys:
+                                dd.values[keys.index(t.slice.value)] = ast.parse(vsrc, mode="eval").body
+                            else:
+                                dd.keys.append(ast.Constant(value=t.slice.value))
+                                dd.values.append(ast.parse(vsrc, mode="eval").body)
+                            p.env[t.value.id] = norm_src(dd)
+                        except Exception:
+                            p.env.pop(t.value.id, None)
                     elif isinstance(t, ast.Subscript) and is_self_attr(t.value) and t.value.attr in SCORE_ATTRS:
                         tsrc = self.src(t, p)
                         _ev(p, ("mean", tsrc, subst(s.value, p.env), s))
@@ -451,7 +489,8 @@ class Walker:
                 body_paths = self.block(list(s.body), [bp])
                 evsets = []
                 for q in body_paths:
-                    key = [(e[0], e[1], norm_src(e[2]) if isinstance(e[2], ast.AST) else str(e[2])) for e in q.events if e[0] in CREDIT_KINDS]
+                    key = [(e[0], e[1], norm_src(e[2]) if isinstance(e[2], ast.AST) else (e[2] if isinstance(e[2], (list, tuple)) else str(e[2])))
+                           for e in q.events if e[0] in CREDIT_KINDS]
                     if key not in evsets:
                         evsets.append(key)
                 if any(k for k in evsets):
@@ -589,6 +628,8 @@ _OPSYM = {ast.Add: "+", ast.Sub: "-", ast.Mult: "*", ast.Div: "/"}
 
 def merge(paths):
     """Merge paths that agree on events, termination and (in fine mode) on the order of events and writes."""
+    if NOMERGE[0]:
+        return list(paths)
     out = []
     seen = {}
     for p in paths:
@@ -608,17 +649,19 @@ def merge(paths):
     return out
 
 
-def method_paths(model, cls, meth, entry=False):
+def method_paths(model, cls, meth, entry=False, nomerge=False):
     fn = model.lookup(cls, meth)[1]
     if fn is None:
         raise AnalysisError("%s.%s not found" % (cls, meth))
     w = Walker(model, cls, fine=True, entry=entry)
     params = [a.arg for a in fn.args.args]
+    NOMERGE[0] = nomerge
     try:
         return fn, params, w.run(fn), w.functions
     finally:
         FINE[0] = False
         ENTRY[0] = False
+        NOMERGE[0] = False
 
 
 def credit_paths(model, cls):
